@@ -101,6 +101,13 @@ impl SymPicture {
     /// Returns the writer and the bit offset at which each macroblock (incl. its
     /// stuffing) starts, plus the end offset.
     pub fn encode_bits(&self) -> (BitWriter, Vec<usize>) {
+        let (w, offs, _) = self.encode_bits_ex();
+        (w, offs)
+    }
+
+    /// As `encode_bits`, plus for every macroblock the bit offset at which its header (COD, MCBPC,
+    /// CBPY, DQUANT, MVDs) ends and its block data starts.
+    pub fn encode_bits_ex(&self) -> (BitWriter, Vec<usize>, Vec<usize>) {
         let mut w = BitWriter::new();
         match &self.hdr {
             Hdr::Sor(h) => h.encode(&mut w),
@@ -110,6 +117,7 @@ impl SymPicture {
         }
         let intra_pic = self.is_intra_picture();
         let mut offs = Vec::with_capacity(self.mbs.len() + 1);
+        let mut hdr_ends = Vec::with_capacity(self.mbs.len());
         for (i, mb) in self.mbs.iter().enumerate() {
             offs.push(w.nbits);
             for _ in 0..self.stuffing.get(i).copied().unwrap_or(0) {
@@ -118,10 +126,10 @@ impl SymPicture {
                 }
                 w.code(MCBPC_STUFFING);
             }
-            encode_mb(&mut w, mb, intra_pic);
+            hdr_ends.push(encode_mb(&mut w, mb, intra_pic));
         }
         offs.push(w.nbits);
-        (w, offs)
+        (w, offs, hdr_ends)
     }
 
     /// Encode and pad with zero bits to a byte boundary.
@@ -187,16 +195,19 @@ pub fn dquant_code(d: i8) -> u32 {
     }
 }
 
-pub fn encode_mb(w: &mut BitWriter, mb: &SymMb, intra_pic: bool) {
+/// Returns the bit offset at which the macroblock's header ends (= where its block data starts).
+pub fn encode_mb(w: &mut BitWriter, mb: &SymMb, intra_pic: bool) -> usize {
     match mb {
         SymMb::Raw(groups) => {
             for g in groups {
                 w.put(g.0, g.1);
             }
+            w.nbits
         }
         SymMb::NotCoded => {
             assert!(!intra_pic);
             w.put(1, 1);
+            w.nbits
         }
         SymMb::Coded { kind, dquant, mvd, blocks } => {
             if !intra_pic {
@@ -233,9 +244,11 @@ pub fn encode_mb(w: &mut BitWriter, mb: &SymMb, intra_pic: bool) {
                     }
                 }
             }
+            let hdr_end = w.nbits;
             for b in blocks.iter() {
                 encode_block(w, b);
             }
+            hdr_end
         }
     }
 }
